@@ -541,6 +541,7 @@ func init() {
 		Stub:        []string{"net.Listener (SimListener)", "net.Conn (SimConn)", "Backend/LMTPSession (SimBackend)", "in a fifth of the seeded runs the peer is a scripted LMTP server instead of smtp.Server (it can refuse DATA after accepting recipients, which the real server never does)", "clock (synctest): a Close that waits for replies that never come costs 12 fake minutes and is detected as such"},
 		Assumptions: []string{"'Close returns once exactly those replies have been read' is judged as: within one fake minute, and the following NOOP gets its own reply"},
 		Required:    []string{"second_or_later_transaction", "recipient_refused_after_DATA", "recipient_refused_at_RCPT", "per_recipient_reply_later_than_CommandTimeout", "message_produced_slower_than_CommandTimeout", "conversation_broken_off_by_Server.Close", "conversation_broken_off_by_backend_panic", "conversation_broken_off_by_failing_reply_write", "conversation_broken_off_by_blocked_reply_write", "multi_line_per_recipient_reply", "DATA_refused_once_then_accepted_in_the_same_transaction", "DATA_refused_after_recipients_were_accepted", "next_Mail_without_Reset_after_refused_DATA", "previous_writer_closed_again_inside_the_next_message", "recipient_accepted_with_251_or_252"},
+		Instr:       true,
 		QuickRuns:   120000, ThoroughRuns: 2000000,
 	})
 }
